@@ -128,7 +128,7 @@ pub struct StCase {
     pub ticks: Vec<StTick>,
 }
 
-const DTS: &[u64] = &[1000, 1000, 1000, 2000, 2000, 999, 1001, 0, 1, 250, 500, 3000, 4000, 5000];
+const DTS: &[u64] = &[1000, 1000, 1000, 2000, 2000, 999, 1001, 0, 1, 250, 500, 3000, 4000, 5000, 10_000, 31_000];
 
 fn observed_for(mode: u8, target: u64, steady: u64) -> u64 {
     match mode % 8 {
